@@ -839,24 +839,25 @@ def mini_exec(fn: ast.FunctionDef, args: Dict[str, object], budget: int = 2000, 
     steps = [0]
 
     def run_method(m_, recv_, call_):
-        ps_ = [a.arg for a in m_.args.args]
-        decos_ = {d_.id for d_ in m_.decorator_list if isinstance(d_, ast.Name)}
-        if "staticmethod" in decos_:
-            cargs_, rest_ = {}, ps_
-        else:
-            cargs_, rest_ = {ps_[0]: recv_}, ps_[1:]
         pos_ = []
         for ax in call_.args:
             if isinstance(ax, ast.Starred):
                 pos_.extend(ev(ax.value))
             else:
                 pos_.append(ev(ax))
+        return invoke(m_, recv_, pos_, {k.arg: ev(k.value) for k in call_.keywords if k.arg})
+
+    def invoke(m_, recv_, pos_, kws_):
+        ps_ = [a.arg for a in m_.args.args]
+        decos_ = {d_.id for d_ in m_.decorator_list if isinstance(d_, ast.Name)}
+        if "staticmethod" in decos_:
+            cargs_, rest_ = {}, ps_
+        else:
+            cargs_, rest_ = {ps_[0]: recv_}, ps_[1:]
         if len(pos_) > len(rest_):
             raise _PathEval.Unknown(f"too many arguments for {m_.name}")
         cargs_.update(zip(rest_, pos_))
-        for k in call_.keywords:
-            if k.arg:
-                cargs_[k.arg] = ev(k.value)
+        cargs_.update(kws_)
         for p_, d_ in zip(ps_[len(ps_) - len(m_.args.defaults):], m_.args.defaults):
             if p_ not in cargs_:
                 cargs_[p_] = ev(d_)
@@ -888,6 +889,9 @@ def mini_exec(fn: ast.FunctionDef, args: Dict[str, object], budget: int = 2000, 
                 base = None
             if isinstance(base, SampleObj):
                 if e.attr not in base:
+                    if classes and base.get("__kind__") in classes and isinstance(classes[base["__kind__"]].get(e.attr), ast.FunctionDef):
+                        m3_ = classes[base["__kind__"]][e.attr]           # a method taken as a value
+                        return lambda *a_, **k_: invoke(m3_, base, list(a_), dict(k_))
                     raise _PathEval.Unknown(f"attribute {e.attr} of a sample object")
                 return base[e.attr]
         if isinstance(e, ast.Call) and isinstance(e.func, ast.Attribute):
@@ -1068,6 +1072,25 @@ def mini_exec(fn: ast.FunctionDef, args: Dict[str, object], budget: int = 2000, 
                     return getattr(base_, e.func.attr)(*[ev(x) for x in e.args])
                 except (ValueError, TypeError) as ex:
                     raise _Raised(str(ex))
+        if isinstance(e, ast.Call) and unparse(e.func) in ("partial", "functools.partial") and e.args and not (isinstance(e.func, ast.Name) and e.func.id in env):
+            import functools as _ft
+            f0_ = ev(e.args[0])
+            if not callable(f0_) or isinstance(f0_, (SampleObj, ClassTok)):
+                raise _PathEval.Unknown("partial of something that is not a function")
+            return _ft.partial(f0_, *[ev(x) for x in e.args[1:]], **{k.arg: ev(k.value) for k in e.keywords if k.arg})
+        if isinstance(e, ast.Attribute) and classes:
+            # a method of a modelled class taken as a value (`partial(self._format_type_name, ...)`)
+            try:
+                b_ = ev(e.value)
+            except _PathEval.Unknown:
+                b_ = None
+            if isinstance(b_, SampleObj) and e.attr not in b_ and b_.get("__kind__") in classes and isinstance(classes[b_["__kind__"]].get(e.attr), ast.FunctionDef):
+                m3_ = classes[b_["__kind__"]][e.attr]
+                return lambda *a_, **k_: invoke(m3_, b_, list(a_), dict(k_))
+        if isinstance(e, ast.Call) and not isinstance(e.func, (ast.Name, ast.Attribute)):
+            f0_ = ev(e.func)
+            if callable(f0_) and not isinstance(f0_, (SampleObj, ClassTok)):
+                return f0_(*[ev(x) for x in e.args], **{k.arg: ev(k.value) for k in e.keywords if k.arg})
         if isinstance(e, ast.Call) and unparse(e.func) in ("textwrap.indent", "textwrap.dedent", "indent", "dedent") and \
                 (isinstance(e.func, ast.Attribute) or e.func.id not in env):
             import textwrap as _tw
